@@ -57,6 +57,14 @@ class Prop(PropBase):
             unit = rng.choice(["s", "ms", "us"])
             yield {"op": "snip", "cls": cls, "L": L, "rate": rate, "t0": t0, "t": t, "n": n, "form": form,
                    "unit": unit, "seed": rng.randrange(1 << 30)}
+        # long signals, fractional offsets far from both ends: the interpolation is over the WHOLE signal (a windowed
+        # approximation differs by 1e-4..1e-3 of the rms there)
+        for _ in range(4 if quick else 60):
+            L = rng.choice([9001, 12000, 16384])
+            n = rng.choice([1, 7, 64])
+            t = rng.randint(4200, L - n - 4200) + rng.choice([0.5, 0.25, 0.731])
+            yield {"op": "snip", "cls": rng.choice(["Signal", "BasebandSignal"]), "L": L, "rate": ("1", "kHz"), "t0": sigs.T0S[0],
+                   "t": t, "n": n, "form": "float", "unit": "s", "seed": rng.randrange(1 << 30)}
 
     # ------------------------------------------------------------- real code
     def _mk(self, case):
